@@ -68,3 +68,10 @@ C('C24', 'byte-level differential: command line (console script, python -m, in-p
 C('C11', 'differential oracle (second cffi path): in-line FFI vs imported emit_python_code() module on generated cdefs, plus dlopen() of a gcc-built library defining the declared functions/globals',
   'Exploration: generated cdefs (typedef chains, nested/anonymous aggregates with bitfields, enums, constants, functions, globals, FILE) compared item by item: type identity for non-aggregates, structural description for aggregates, constant values, list_types(), function/global types and addresses, values read and writes seen on the other side.',
   'Sanitizer reports in the module-decoding path are observations only. Known findings: FILE in list_types(); in-line display name of typedef\'ed named aggregates.')
+
+C('C10', 'differential oracle: gcc probe (sizeof, signedness, every enumerator) vs cffi in in-line, out-of-line ABI and compiled API mode; 5-line model for ffi.string()',
+  'Exploration: generated enums in 4 declaration forms with implicit runs, literals in all bases/suffixes, negative values, character constants, references to earlier enumerators/macros, values on the int/unsigned/long/unsigned long boundaries, duplicates; values, size, signedness, elements/relements and ffi.string of declared/undeclared values compared in 3 modes.',
+  'Value sets are kept inside one 64-bit type; implicit increments never cross a type limit (gcc rejects those). Known finding: negated unsigned-typed literals.')
+C('C31', 'differential oracle: decorated vs undecorated cdef through the real parser (declarations, constants, emit_c_code/emit_python_code bytes, in-line facts); icontract postcondition on cparser._preprocess',
+  'Exploration: generated cdefs (incl. API-mode constructs) decorated at token boundaries with comments of both kinds, white-space runs (incl. FF/VT/CR/CRLF), backslash-newline inside #define lines, line directives with hostile file names; failing decorations are reduced to the culprit insertion(s) that define the mechanism key.',
+  '13 exotic insertion classes are recorded findings (all raise CDefError; no silent change of meaning was observed).')
